@@ -20,6 +20,8 @@ class ScalarOps (α : Type) where
   nextPow2 : α → α
   /-- truncation toward zero (`int(x)`) -/
   trunc : α → Int
+  /-- `round(x)`: nearest integer, ties to even -/
+  roundHE : α → Int
 
 export ScalarOps (ofInt)
 
@@ -42,8 +44,16 @@ def Float.truncInt (x : Float) : Int :=
       mf * 2^(ef - 1075)
   if neg then -(n : Int) else (n : Int)
 
+/-- Python's `round(x)` for a finite double: nearest integer, ties to even (`x - floor x` is exact). -/
+def Float.roundHalfEven (x : Float) : Int :=
+  let f := x.floor
+  let d := x - f
+  let fi := f.truncInt
+  if d < 0.5 then fi else if d > 0.5 then fi + 1 else if fi % 2 == 0 then fi else fi + 1
+
 instance : ScalarOps Float where
   ofInt := Float.ofInt
   floor := Float.floor
   nextPow2 := Float.nextPow2
   trunc := Float.truncInt
+  roundHE := Float.roundHalfEven
